@@ -310,6 +310,17 @@ func (s *Sorts) declarations() string {
 		}
 	}
 	fmt.Fprintf(&b, "(define-fun idsOK ((v Val) (b Int)) Bool %s)\n", And(conds...))
+	// valSmall(v): size hints used only when asking for small models to replay
+	b.WriteString("(define-fun sliceSmall ((s Slice)) Bool (and (<= (s_len s) 3) (<= (s_cap s) 4) (<= (s_off s) 2) (<= (s_arr s) 60)))\n")
+	var sm []Term
+	for _, k := range s.ctorOrd {
+		c := s.ctors[k]
+		inner := s.smallTerm(c.gotype, app(c.sel, "v"), 0)
+		if inner != "true" {
+			sm = append(sm, fmt.Sprintf("(=> ((_ is %s) v) %s)", c.ctor, inner))
+		}
+	}
+	fmt.Fprintf(&b, "(define-fun valSmall ((v Val)) Bool %s)\n", And(sm...))
 	return b.String()
 }
 
@@ -335,6 +346,37 @@ func (s *Sorts) idsOKTerm(t types.Type, x Term, bound Term, depth int) Term {
 				continue // nested interface values: constrained when projected
 			}
 			cs = append(cs, s.idsOKTerm(ft, app(si.fields[i], x), bound, depth+1))
+		}
+		return And(cs...)
+	}
+	return "true"
+}
+
+func (s *Sorts) smallTerm(t types.Type, x Term, depth int) Term {
+	switch u := t.Underlying().(type) {
+	case *types.Slice:
+		return app("sliceSmall", x)
+	case *types.Basic:
+		if u.Info()&types.IsInteger != 0 {
+			return And(app("<=", "(- 3)", x), app("<=", x, "6"))
+		}
+		if u.Info()&types.IsString != 0 {
+			return app("<=", app("str.len", x), "4")
+		}
+	case *types.Map, *types.Pointer:
+		return app("<=", x, "60")
+	case *types.Struct:
+		si := s.structOf(t)
+		if si == nil || depth > 1 {
+			return "true"
+		}
+		var cs []Term
+		for i := 0; i < u.NumFields(); i++ {
+			ft := u.Field(i).Type()
+			if isInterface(ft) {
+				continue
+			}
+			cs = append(cs, s.smallTerm(ft, app(si.fields[i], x), depth+1))
 		}
 		return And(cs...)
 	}
